@@ -34,6 +34,8 @@ type Profile struct {
 	ForcedPct int
 	AgedPct   int // % of asks created "one hour ago" (default 50)
 	NodeSort  string
+	// BindExisting: reportBound also names asks submitted earlier (the shim reports them bound elsewhere, possibly resized)
+	BindExisting bool
 }
 
 var baseW = map[string]int{"addNode": 6, "removeNode": 3, "drain": 1, "undrain": 1, "updateNode": 1, "foreign": 2, "foreignRemove": 1, "addApp": 7, "removeApp": 2,
@@ -61,6 +63,11 @@ func GetProfile(name string) *Profile {
 		return &Profile{Name: name, Conf: "C", Queues: []string{"root.a", "root.p.x", "root.q"}, Apps: 4, Nodes: 3, Users: u2, Groups: g,
 			W:       withW(map[string]int{"drain": 3, "undrain": 3, "updateNode": 4, "foreign": 6, "foreignRemove": 3, "deny": 4, "reportBound": 3, "updateAsk": 3}),
 			GangPct: 15, ReqNode: 6, MaxPrio: 2, NodeMem: [2]int{2, 4}, AskMem: 3}
+	case "extbind": // the capacity profile plus external placement of asks the core already knows (judged for reservations only)
+		p := GetProfile("capacity")
+		p.Name, p.BindExisting = name, true
+		p.W = withW(map[string]int{"drain": 3, "undrain": 3, "updateNode": 2, "foreign": 4, "foreignRemove": 3, "deny": 4, "reportBound": 8, "updateAsk": 1, "addAsk": 26})
+		return p
 	case "gang":
 		return &Profile{Name: name, Conf: "base", Confs: []string{"base", "base", "D"}, Queues: []string{"root.a", "root.p.x", "root.p.y"}, Apps: 3, Nodes: 3, Users: u2, Groups: g,
 			W:       withW(map[string]int{"firePhTimer": 5, "fireStateTimer": 4, "deny": 5, "confirm": 14, "removeNode": 4, "foreign": 0, "foreignRemove": 0, "updateNode": 0, "reportBound": 0, "updateAsk": 0}),
@@ -70,7 +77,7 @@ func GetProfile(name string) *Profile {
 			W:       withW(map[string]int{"drain": 2, "undrain": 2, "deny": 3, "addAsk": 24, "release": 10}),
 			GangPct: 10, ReqNode: 5, MaxPrio: 3, NodeMem: [2]int{2, 4}, AskMem: 4}
 	case "reload":
-		return &Profile{Name: name, Conf: "base", Confs: []string{"base", "base", "baseCase"}, Reloads: []string{"base", "B", "C", "D", "bad", "bad2", "BCase", "CCase"}, Queues: []string{"root.a", "root.p.x", "root.p.y", "root.p.w", "root.q"}, Apps: 4, Nodes: 3, Users: u2, Groups: g,
+		return &Profile{Name: name, Conf: "base", Confs: []string{"base", "base", "baseCase"}, Reloads: []string{"base", "B", "C", "D", "bad", "bad2", "bad3", "BCase", "CCase"}, Queues: []string{"root.a", "root.p.x", "root.p.y", "root.p.w", "root.q"}, Apps: 4, Nodes: 3, Users: u2, Groups: g,
 			W:       withW(map[string]int{"reload": 6, "cleanQueues": 3}),
 			GangPct: 15, ReqNode: 0, MaxPrio: 2, NodeMem: [2]int{2, 5}, AskMem: 3}
 	case "preempt":
@@ -198,6 +205,10 @@ func (g *Gen) Prologue() []M {
 			return g.pressurePrologue()
 		case 1:
 			return g.quotaPrologue()
+		}
+	case "quota":
+		if g.rng.Intn(3) != 0 {
+			return g.quotaChangePrologue()
 		}
 	case "reserve", "capacity", "restart":
 		if g.rng.Intn(2) == 0 {
@@ -460,6 +471,45 @@ func (g *Gen) quotaBoundPrologue() []M {
 	return ops
 }
 
+// quotaChangePrologue: several applications fill a queue, then its maximum is lowered by a reload and the quota tick runs -
+// once, or a second time (after another reload or not) while the victims of the first run are still waiting for the shim.
+func (g *Gen) quotaChangePrologue() []M {
+	rng := g.rng
+	var ops []M
+	for n := 0; n < g.P.Nodes; n++ {
+		ops = append(ops, M{"op": "addNode", "node": fmt.Sprintf("n%d", n), "cap": map[string]int64{"memory": int64(5 + rng.Intn(3)), "pods": 6}, "drained": false})
+	}
+	queues := []string{"root.a", "root.p.x", "root.p.y"}
+	napps := 2 + rng.Intn(2)
+	for i := 0; i < napps; i++ {
+		app := fmt.Sprintf("app%d", i)
+		q := queues[rng.Intn(len(queues))]
+		if i == 1 && rng.Intn(2) == 0 { // two applications in one leaf
+			q = gs(ops[len(ops)-1-0], "queue")
+			for j := len(ops) - 1; j >= 0; j-- {
+				if gs(ops[j], "op") == "addApp" {
+					q = gs(ops[j], "queue")
+					break
+				}
+			}
+		}
+		g.mkApp(&ops, app, q, false)
+		for j := 0; j < 2+rng.Intn(3); j++ {
+			g.mkAsk(&ops, app, map[string]int64{"memory": int64(1 + rng.Intn(2))}, rng.Intn(3), false, false, "", "")
+		}
+	}
+	g.sched(&ops, 10)
+	ops = append(ops, M{"op": "reload", "conf": "quotaLow"})
+	ops = append(ops, M{"op": "quotaTick"})
+	switch rng.Intn(3) {
+	case 0:
+		ops = append(ops, M{"op": "quotaTick"})
+	case 1:
+		ops = append(ops, M{"op": "confirm", "i": 0, "keep": false}, M{"op": "quotaTick"})
+	}
+	return ops
+}
+
 func (g *Gen) preemptPrologue() []M {
 	if g.conf == "pre4" {
 		return g.quotaBoundPrologue()
@@ -544,6 +594,13 @@ func (g *Gen) Next() M {
 		delete(g.live, id)
 		return M{"op": "removeApp", "app": id}
 	case "addAsk", "reportBound":
+		if g.P.BindExisting && name == "reportBound" && len(g.keys) > 0 && rng.Intn(2) == 0 {
+			// the shim reports an ask it submitted earlier as bound by somebody else, possibly with another size in the same message
+			if ki := g.keys[rng.Intn(len(g.keys))]; !ki.ph {
+				return M{"op": "reportBound", "app": ki.app, "key": ki.key, "res": map[string]int64{"memory": int64(rng.Intn(g.P.AskMem) + 1)}, "ph": false, "tg": "", "aged": false,
+					"reqNode": "", "prio": 0, "preemptOther": true, "preemptSelf": true, "originator": false, "node": g.node()}
+			}
+		}
 		app := g.liveApp()
 		key := fmt.Sprintf("k%d", g.nextKey)
 		g.nextKey++
